@@ -427,6 +427,13 @@ pub fn verify<H: NodeHasher>(
     let mut verified_bisections = Vec::new();
     for i in 0..multi_proof.paths.len() {
         let path = &multi_proof.paths[i];
+        // A terminator position that was deserialised rather than constructed may claim a depth
+        // beyond the key length, which `TriePosition::path` cannot slice.
+        if let PathProofTerminal::Terminator(position) = &path.terminal {
+            if position.depth() as usize > 256 {
+                return Err(MultiProofVerificationError::Malformed);
+            }
+        }
         if path.depth > path.terminal.path().len() {
             return Err(MultiProofVerificationError::Malformed);
         }
